@@ -3,27 +3,43 @@
 META = {
     "level": "proof",
     "text": "Lean theorems over an executable model of ValidateJWT (result cache, cache-hit and cache-miss paths), "
-            "selectVerificationKey/keyByID over the filtered JWKS, and the blacklist store with its own cache: for EVERY "
-            "library verdict function, JWKS, configuration and EVERY history of present/revoke/unrevoke/flush/advance/"
-            "purge/evict operations, a token is accepted only if it parses, its alg is RS*/ES*, its signature verifies "
-            "under the published signature key its kid selects, iss and aud match, nbf <= now < exp and its jti is not "
-            "revoked at that moment (C22_accept_implies); the answer never depends on the cache contents "
-            "(C22_present_eq_spec / C22_seen_or_not), so revocation takes effect for every later request "
-            "(C22_revocation_effective). The model is tied to the code by running the real ValidateJWT, tokens.Blacklist/"
-            "Delete/Flush, caches.Purge and the real cache sweepers under a synctest virtual clock on generated histories "
-            "with hand-assembled tokens, and diffing every answer with the Lean model; a model-free oracle restates the "
-            "property on the same runs. A second, end-to-end leg issues tokens with Ego's own authorization server, "
-            "revokes them through POST /oauth2/revoke (RevokeHandler) and presents them to the resource server "
+            "selectVerificationKey/keyByID with the JWKS cache (fetched key set, fetch time, TTL, unknown-kid refresh "
+            "with its 30 s cooldown, failed refresh) over a provider whose JWKS document may be replaced at any moment, "
+            "and the blacklist store with its own cache: for EVERY library verdict function, start-up JWKS, configuration, "
+            "JWKS TTL and EVERY history of present/revoke/unrevoke/flush/advance/purge/evict/setKeys operations, a token "
+            "is accepted only if it parses, its alg is RS*/ES*, its signature verifies under a key the provider HAS "
+            "PUBLISHED for signatures (under the kid the header names), iss and aud match, nbf <= now < exp and its jti "
+            "is not revoked at that moment (C22_accept_implies); for a token with a kid and no live result-cache entry "
+            "that key is published NOW or was last published less than one JWKS TTL ago (C22_key_staleness), so a "
+            "never-presented token signed with a withdrawn key is rejected once one TTL has passed "
+            "(C22_withdrawn_key_rejected); revocation takes effect for every later request (C22_revocation_effective); "
+            "while the provider keeps its document the answer never depends on any cache (C22_present_eq_spec / "
+            "C22_seen_or_not / C22_accept_implies_fixed_keys). The model is tied to the code by running the real "
+            "ValidateJWT, refreshJWKS/keyByID against a JWKS served from memory that the history replaces (publish, "
+            "withdraw, rotate under the same kid, reorder, no usable key), tokens.Blacklist/Delete/Flush, caches.Purge and "
+            "the real cache sweepers under a synctest virtual clock (advances across the JWKS TTL and the cooldown) on "
+            "generated histories with hand-assembled tokens, and diffing every answer with the Lean model; a model-free "
+            "oracle restates the property on the same runs, including: accepted => the verifying key is in the "
+            "provider's CURRENT document, or was withdrawn less than one JWKS TTL ago, or the token string still has "
+            "its entry in the JWT result cache. A second, end-to-end leg issues tokens with Ego's own authorization "
+            "server, revokes them through POST /oauth2/revoke (RevokeHandler) and presents them to the resource server "
             "configured by the real oauth.Initialize (HTTP discovery + JWKS).",
     "note": "The model mirrors the code WITH fixes/C22.patch (blacklist check on the cache-miss path); the code before the "
             "patch is the `fixed := false` variant and C22_unpatched_counterexample shows it accepts a token revoked "
-            "before first presentation. Trusted: Lean kernel; golang-jwt + Go crypto (the library verdict is a parameter: "
-            "each signature verifies under at most the key that made it); the harness's recipe as ground truth. "
-            "Modelled as transparent, exercised but not proved: JWKS cache TTL/refresh/unknown-kid cooldown with a fixed "
-            "published key set and a reachable provider (no key rotation inside a history); cache size limit and sweeper "
-            "are over-approximated by an `evict` operation that may drop any entry at any time. Assumed: a blacklist "
-            "store is configured and its reads succeed (ValidateJWT fails open on a blacklist read error); tokens "
-            "without a jti cannot be revoked (by design of the code). Permission mapping is not part of C22.",
+            "before first presentation. KNOWN FINDING (class accept-withdrawn-key-token-without-kid): for a token WITHOUT "
+            "kid selectVerificationKey uses allKeys(), which never looks at the age of the JWKS cache, so a withdrawn key "
+            "stays trusted for such tokens until some token with a kid triggers a refresh (C22_nokid_stale_counterexample; "
+            "C22_key_staleness has the hypothesis kid != 0). Staleness the code allows and the theorems state: a cached "
+            "key set is used while age < ttl, so a key withdrawn at w is honoured only while now - w < ttl; a token string "
+            "already in the JWT result cache is not re-verified until that entry lapses (sliding jwt cache ttl + sweep, "
+            "bounded by the token's exp). Trusted: Lean kernel; golang-jwt + Go crypto (the library verdict is a "
+            "parameter: each signature verifies under at most the key that made it); the harness's recipe as ground "
+            "truth. Modelled as an environment assumption: the provider is reachable (refreshJWKS fails only for a "
+            "document without usable keys); the cache size limit and sweeper are over-approximated by an `evict` "
+            "operation that may drop any entry at any time (the harness reports the real evictions through "
+            "caches.SetOnEvict). Assumed: a blacklist store is configured and its reads succeed (ValidateJWT fails open "
+            "on a blacklist read error); tokens without a jti cannot be revoked (by design of the code). Permission "
+            "mapping is not part of C22.",
     "technique": "Lean 4 proof (invariant over all histories) + model/implementation correspondence under synctest",
     "design_ref": "DESIGN.md §6 C22",
 }
@@ -33,10 +49,12 @@ def run(ctx):
     ctx.trusted += ["golang-jwt v5 and Go crypto (library verdict enters the model as the parameter World.lib)",
                     "translator: none; correspondence harness internal/server/oauth/zz_verif_c22_test.go + egodriver C22",
                     "end-to-end oracle harness internal/server/oauth/authserver/zz_verif_c22_test.go (no model)"]
-    ctx.assumptions += ["the set of published keys does not change inside a history and the JWKS endpoint is reachable",
+    ctx.assumptions += ["the JWKS endpoint is reachable (its document may change at any moment of a history)",
                         "a blacklist store is configured and its reads succeed",
                         "whole-second clock (JWT NumericDate without fractions)"]
-    ctx.lean_audit(required=["C22_accept_implies", "C22_present_eq_spec", "C22_seen_or_not",
+    ctx.lean_audit(required=["C22_accept_implies", "C22_key_staleness", "C22_withdrawn_key_rejected",
+                             "C22_never_presented_not_cached", "C22_nokid_stale_counterexample",
+                             "C22_accept_implies_fixed_keys", "C22_present_eq_spec", "C22_seen_or_not",
                              "C22_revocation_effective", "C22_valid_accepted", "C22_unpatched_counterexample"])
     if not ctx.quick:
         ctx.leanchecker()
@@ -64,14 +82,23 @@ def run(ctx):
     c = st.get("counters", {})
     if cases and c.get("present.accepted", 0) == 0:
         ctx.broken.append("harness is vacuous: no token was ever accepted")
+    if cases and (c.get("op.keys", 0) == 0 or c.get("present.accepted-after-document-change", 0) == 0
+                  or c.get("present.accepted-withdrawn-key-within-allowance", 0) == 0):
+        ctx.broken.append("harness is vacuous: no JWKS document change was exercised "
+                          "(changes=%d, accepted after a change=%d, accepted on a withdrawn key inside the TTL allowance=%d)"
+                          % (c.get("op.keys", 0), c.get("present.accepted-after-document-change", 0),
+                             c.get("present.accepted-withdrawn-key-within-allowance", 0)))
     ctx.coverage.update({
         "evaluations": c.get("op.present", 0),
         "histories": c.get("histories", 0),
         "distinct_nontrivial": c.get("distinct_nontrivial", 0),
-        "rule": "histories of present/revoke/unrevoke/flush/advance/purge over 3-8 hand-assembled tokens and a random JWKS "
-                "layout (duplicate kids, enc-only, oct, bad curve, off-curve, bad base64); a presentation is non-trivial "
-                "when at most one acceptance condition fails; distinct = distinct (failing condition, alg family, kid "
-                "present, kid selects signer, seen before, exp boundary, nbf, audience configured, user claim) vectors",
+        "rule": "histories of present/revoke/unrevoke/flush/advance/purge/JWKS-document-change over 3-8 hand-assembled "
+                "tokens and random JWKS layouts (duplicate kids, enc-only, oct, bad curve, off-curve, bad base64; two "
+                "histories in five replace the document one to three times: withdraw, publish, rotate under the same kid, "
+                "reorder, earlier document, no usable key); a presentation is non-trivial when at most one acceptance "
+                "condition fails; distinct = distinct (failing condition, alg family, kid present, kid selects signer, "
+                "seen before, exp boundary, nbf, audience configured, user claim, key current / withdrawn < ttl / "
+                "withdrawn >= ttl / never published, document changed) vectors",
         "samples": st.get("samples", []),
         "counters": c,
         "e2e_counters": rst,
